@@ -692,4 +692,30 @@ theorem reach_old_of_write {h h1 : Heap} (hl : h ≤ h1) (hcl : h.Closed) {par x
     exact ⟨ha.trans (Reach.child hg hk), hcl a c hg k hk⟩
   exact key b hb
 
+/-! ## 7. the list rebuild, statement by statement -/
+
+theorem appendAllH_eq : ∀ (ys : List Addr) (h : Heap) (l : Addr) (acc : List Addr),
+    h.get? l = some (.list acc) → appendAllH h l ys = some (h.write l (.list (acc ++ ys)))
+  | [], h, l, acc, hg => by
+    simp only [appendAllH, List.append_nil, Heap.write_self hg]
+  | y :: ys, h, l, acc, hg => by
+    simp only [appendAllH, listAppend, hg]
+    rw [appendAllH_eq ys (h.write l (.list (acc ++ [y]))) l (acc ++ [y])
+      (get?_write_self h _ (get?_lt hg)), Heap.write_write, List.append_assoc]
+    rfl
+
+theorem insertListItemStmts_eq {h : Heap} {l : Addr} {xs : List Addr} (hg : h.get? l = some (.list xs))
+    (i : Nat) (v : Addr) :
+    insertListItemStmts h l i v = some (h.write l (.list (xs.take i ++ v :: xs.drop i))) := by
+  simp only [insertListItemStmts, hg, listClear]
+  rw [appendAllH_eq _ (h.write l (.list [])) l [] (get?_write_self h _ (get?_lt hg)), Heap.write_write]
+  rfl
+
+theorem removeListItemStmts_eq {h : Heap} {l : Addr} {xs : List Addr} (hg : h.get? l = some (.list xs))
+    (i : Nat) :
+    removeListItemStmts h l i = some (h.write l (.list (xs.take i ++ xs.drop (i + 1)))) := by
+  simp only [removeListItemStmts, hg, listClear]
+  rw [appendAllH_eq _ (h.write l (.list [])) l [] (get?_write_self h _ (get?_lt hg)), Heap.write_write]
+  rfl
+
 end Ytk.Heap
